@@ -50,6 +50,20 @@ fn open_with_plan(
     plan: Option<FaultPlan>,
     deadline: Duration,
 ) -> Outcome {
+    let first = open_with_plan_once(policy, files, plan.clone(), deadline);
+    if first.out != "timeout" {
+        return first;
+    }
+    // (confirmed with a much longer deadline: machine load is not a verdict)
+    open_with_plan_once(policy, files, plan, crate::crash::confirm_deadline(deadline))
+}
+
+fn open_with_plan_once(
+    policy: &str,
+    files: &BTreeMap<u64, FileImg>,
+    plan: Option<FaultPlan>,
+    deadline: Duration,
+) -> Outcome {
     let files_in = files.clone();
     let policy_in = policy.to_string();
     let result = with_deadline(deadline, move || {
